@@ -90,7 +90,80 @@ class C08(InterpProp):
                 o.on_entry = c
         self._n = n      # the flags k0..k(n-1) are given to the interpreter as its initial context (all True)
 
+    def special_case(self, rnd):
+        """two statecharts of another kind than the random ones, with the verdicts they call for:
+        `bare` — no preamble: a state is entered while no variable exists, its `__old__` is that empty context;
+        `line` — a long line of states, each with a contract, under a root whose invariant reads its own `__old__`:
+        what was shown when the root was entered is still shown hundreds of entries later"""
+        from sismic.model import BasicState, CompoundState, Statechart, Transition
+        from ..encode import ChartEnc
+        from ..framework import Case
+        if rnd.random() < 0.5:
+            sc = Statechart('bare')
+            sc.add_state(CompoundState('r', initial='counter'), None)
+            st = BasicState('counter', on_entry='count = %d' % rnd.randint(1, 5))
+            st.invariants.append("count >= __old__.get('count', 0)")
+            st.postconditions.append("'count' not in __old__")
+            sc.add_state(st, 'r')
+            sc.add_state(BasicState('done'), 'r')
+            sc.add_transition(Transition('counter', None, event='dec', action='count = count - %d' % rnd.randint(20, 40)))
+            sc.add_transition(Transition('counter', None, event='inc', action='count = count + 1'))
+            sc.add_transition(Transition('counter', 'done', event='stop'))
+            evs = [rnd.choice(['inc', 'inc', 'dec', 'stop']) for _ in range(rnd.randint(2, 6))]
+            ops, expect, count, alive = [['create', 0, False, [], 0], ['exec', 0, 0]], {}, 1, True
+            for e in evs:
+                ops.append(['queue', 0, {'ev': e, 'data': []}])
+                ops.append(['exec', 0, 0])
+                if not alive:
+                    continue
+                if e == 'dec':
+                    expect[len(ops) - 1] = 'InvariantError'      # the count falls below 0, what it was (not) at the entry
+                    alive = False
+                elif e == 'stop':
+                    alive = False           # ('count' was not there when the state was entered: its postcondition holds)
+            payload = {'kind': 'interp', 'charts': [ChartEnc(sc).json], 'ops': ops, 'expect': {str(k): v for k, v in expect.items()},
+                       'no_model': True, 'via_yaml': False}
+            return Case(payload, {'charts': [sc]}, model_ok=False)
+        n = rnd.choice([150, 200, 260])
+        sc = Statechart('line', preamble='produced = 0\nx = 0\ny = 0')
+        root = CompoundState('line', initial='s0')
+        root.invariants.append('produced >= __old__.produced')
+        sc.add_state(root, None)
+        for i in range(n):
+            st = BasicState('s%d' % i)
+            st.preconditions.append('produced >= 0')
+            st.postconditions.append('produced >= __old__.produced')
+            sc.add_state(st, 'line')
+        for i in range(n - 1):
+            sc.add_transition(Transition('s%d' % i, 's%d' % (i + 1), event='next', action='produced += 1'))
+        ops = [['create', 0, False, [], 0], ['exec', 0, 0]]
+        for _ in range(rnd.randint(135, n - 5)):
+            ops.append(['queue', 0, {'ev': 'next', 'data': []}])
+            ops.append(['exec', 0, 0])
+        enc = ChartEnc(sc)
+        payload = {'kind': 'interp', 'charts': [enc.json], 'ops': ops, 'expect': {}, 'via_yaml': False}
+        return Case(payload, {'charts': [sc]}, model_ok=enc.supported)
+
+    def expect_oracle(self, case, obs, res):
+        exp = case.payload['expect']
+        for k, (op, ob) in enumerate(zip(case.payload['ops'], obs['obs'])):
+            if op[0] != 'exec':
+                continue
+            r = ob['r']
+            got = r['err']['class'] if r.get('outcome') == 'error' else None
+            want = exp.get(str(k))
+            if got != want:
+                res.violations.append('op %d: %s; the contracts of this statechart call for %s here' % (
+                    k, ('%s raised' % got) if got else 'nothing raised', want or 'no error'))
+                return
+            if got:
+                break
+        res.features.add('special:' + case.aux['charts'][0].name)
+        res.nontrivial = True
+
     def gen_case(self, rnd, tier):
+        if rnd.random() < 0.012:
+            return self.special_case(rnd)
         case = super().gen_case(rnd, tier)
         case.payload['record_old'] = True     # the implementation-side `__old__` channel (oracle 3)
         n = self._n
@@ -141,6 +214,8 @@ class C08(InterpProp):
         return []
 
     def oracle(self, case, obs, res):
+        if 'expect' in case.payload:
+            return self.expect_oracle(case, obs, res)
         sc = (case.aux.get('oracle_charts') or case.aux['run_charts'])[0]
         trans = list(sc.transitions)
         base = obs.get('_base', obs)
